@@ -115,6 +115,7 @@ func init() {
 				ruleTypeGuard(w, r, ntq)
 			}
 			ruleKinds(w, r, v2)
+			ruleCtxPos(w, r, pf)
 			ruleChildResult(w, r, pf)
 			ruleArrayDispatch(w, r, v2, "v2", "patch")
 			ruleEqSize(w, r, newNodeTypes(w, v2, "v2"))
@@ -140,6 +141,7 @@ func init() {
 			ruleHashEq(w, r, nt)
 			ruleNodeCompare(w, r, nt)
 			ruleHashInjective(w, r, nt)
+			ruleNoSharedScratch(w, r, v2, "v2")
 			ruleTolerance(w, r, nt)
 			ruleOptFwd(w, r, v2, "v2", "Option", equalsSide, nil)
 			r.Floor("R-TYPEGUARD", 10)
@@ -156,6 +158,7 @@ func init() {
 			pf := newPatchFamily(w, v2, "v2")
 			rulePure(w, r, v2, pf)
 			ruleMapOrder(w, r, v2, "v2")
+			ruleNoSharedScratch(w, r, v2, "v2")
 			ruleNoNondet(w, r, v2)
 			r.Floor("R-PURE", 45)
 			r.Floor("R-MAPORDER", 15)
@@ -359,6 +362,11 @@ func init() {
 			ruleRawArg(w, r, v2)
 			ruleRawTypes(w, r, v2)
 			ruleJSONCodec(w, r, v2, "v2")
+			// the yaml2json / json2yaml translations of the command are the library's readers and renderers, nothing else
+			r.Only(func(o Ob) bool {
+				return (o.Rule == "R-CLI/O" && strings.Contains(o.Key, "printTranslation") && strings.Contains(o.Key, "is-library-rendering")) ||
+					(o.Rule == "R-CLI/M" && (strings.Contains(o.Key, "json2yaml") || strings.Contains(o.Key, "yaml2json")))
+			}, func(sub *Report) { runCLI(w, sub, "output", "modes") })
 			ruleRawInput(w, r, v2, "v2")
 			r.Floor("R-YAMLTYPES", 12)
 			r.Floor("R-CODEC", 20)
@@ -404,6 +412,7 @@ func init() {
 			ruleDescend(w, r, pf)
 			ruleNotIgnored(w, r, pf, listModePatch)
 			ruleKinds(w, r, v2)
+			ruleCtxPos(w, r, pf)
 			ruleDiffReaders(w, r, v2, "v2", "Patch")
 			rulePatchSeq(w, r, v2)
 			ruleParent(w, r, v2)
@@ -500,6 +509,8 @@ func init() {
 			rulePatchResult(w, r, pf, nil)
 			ruleRawTypesTag(w, r, lib, "lib")
 			ruleDiffReaders(w, r, lib, "lib", "Diff")
+			ruleNoSharedScratch(w, r, lib, "lib")
+			ruleEqSize(w, r, newNodeTypes(w, lib, "lib"))
 			ruleScanErr(w, r, lib, "lib")
 			r.Floor("R-FWD(lib)", 60)
 			r.Floor("R-OPTFWD(lib)", 80)
